@@ -84,9 +84,12 @@ NLDefs == { PD(mo, R(2,1), R(3,2), IF mo = "cpanel" THEN R(4,1) ELSE RZero, RZer
               mo \in {"plate", "cpanel"}, mn \in (IF Tier = "quick" THEN {<<2,2>>} ELSE {<<2,2>>, <<3,2>>, <<2,3>>}),
               fl \in (IF Tier = "quick" THEN {FlPrimes} ELSE {FlPrimes, FlMixed}), lam \in {LamGen} }
           \cup { PD("plate", R(2,1), R(3,2), RZero, RZero, ROne, 4, 3, FlFree, LamGen, RZero, ROne, R(3,1), Zero3) }
+          (* orders whose exact Gauss rules differ along x and y (n = 5 needs 9 points, m = 2 needs 7) *)
+          \cup { PD("plate", R(2,1), R(3,2), RZero, RZero, ROne, 2, 5, FlMixed, LamGen, RZero, ROne, R(3,1), Zero3) }
 NLState(pd, amp) == Fn([k \in 1..(3 * pd.m * pd.n) |-> RMul(amp, R(((k * 5 + 2) % 9) - 4, 16))])
 NLRequests(pd) ==
     IF pd.m = 4 THEN { [q |-> "kGc", c |-> NLState(pd, ROne), NL |-> FALSE, taper |-> Uniform] @@ NoPlace }
+    ELSE IF pd.n = 5 THEN { [q |-> "fint", c |-> NLState(pd, ROne), taper |-> Uniform] @@ NoPlace }
     ELSE LET amps == IF Tier = "quick" THEN {ROne} ELSE {ROne, R(1,8)}
              (* quick: the costly stencil invariants of the uniform tangent on the flat model only *)
              kTuni == IF Tier = "quick" /\ pd.model = "cpanel" THEN {} ELSE
